@@ -73,13 +73,13 @@ def gen_dict(r, depth):
 
 def gen_payload(r, top):
     if top == "list":
-        return [gen_value(r, 2) for _ in range(r.randint(0, 5))]
+        return [gen_value(r, 2) for _ in range(r.randint(0, 5))] + [r.randint(0, 10**9)]   # last element: uid
     d = gen_dict(r, 2)
     d["uid"] = r.randint(0, 10**9)      # makes payloads pairwise distinct so that a swap is visible
     return d
 
 
-COLLIDING_INST = [["Cam A", "Cam_A", "Cam/A", "Cam.A"], ["A_B", "A"], ["x y.z", "x_y_z", "x/y z"]]
+COLLIDING_INST = [["Cam A", "Cam_A", "Cam/A", "Cam.A", "CamA"], ["A_B", "A"], ["x y.z", "x_y_z", "x/y z"]]
 PLAIN_INST = ["CamB", "HSC", "L-1", "X#1", "q+r", "m,n", "Z9"]
 RUNS_COLLIDING = [["r 1", "r_1"], ["u/w x", "u/w_x"]]
 RUNS_PLAIN = ["r1", "u/r2", "u_r2", "r.1", "r_1x", "p/q/s"]
@@ -153,6 +153,8 @@ def gen_history(r, nops, collide, cfgs):
             idn = rand_ident()
             if r.random() < 0.08 and S["reg"]:
                 idn = dict(zip(("dt", "inst", "det", "pf", "run"), r.choice(list(S["reg"].values()))))   # conflict on purpose
+            elif r.random() < 0.2 and S.get("purged"):
+                idn = dict(zip(("dt", "inst", "det", "pf", "run"), r.choice(S["purged"])))               # same path as a purged dataset
             k = nextk[0]
             nextk[0] += 1
             op = dict(idn, op="put", repo=repo, k=k, payload=new_payload(idn["dt"]))
@@ -194,8 +196,8 @@ def gen_history(r, nops, collide, cfgs):
             op = {"op": "remove", "repo": repo, "purge": purge, "ks": ks}
             for k in ks:
                 S["stored"].discard(k)
-                if purge:
-                    S["reg"].pop(k, None)
+                if purge and k in S["reg"]:
+                    S.setdefault("purged", []).append(S["reg"].pop(k))
         if op is None:
             idn = rand_ident()
             k = nextk[0]
@@ -204,7 +206,7 @@ def gen_history(r, nops, collide, cfgs):
             if key(idn) not in S["reg"].values():
                 S["reg"][k] = key(idn)
                 S["stored"].add(k)
-        if r.random() < 0.15:
+        if r.random() < 0.1:
             op["fresh"] = True
         ops.append(op)
     return {"cfgA": cfgA, "cfgB": cfgB, "setup": setup, "payloads": payloads, "ops": ops}
@@ -226,6 +228,11 @@ def _san(v):
     return re.sub(r"[ /.]", "_", str(v))
 
 
+def _dir_part(x):
+    """directory components of the default template that come from the data ID (band / physical_filter), as written"""
+    return tuple(str(x[k]).replace(" ", "_").replace("/", "_") for k in ("band", "physical_filter") if k in x)
+
+
 def _template_fields(h, ident):
     """the values FileTemplate.format substitutes for this dataset (names, not detector ids)"""
     dt, inst, det, pf, run = ident
@@ -240,10 +247,20 @@ def _template_fields(h, ident):
     return out
 
 
+def payload_rep(h):
+    """payload number -> first payload number with the same (type-strict) value: equal payloads are interchangeable"""
+    from harness.impl.c01_impl import canon, decode_payload
+    first, rep = {}, []
+    for i, p in enumerate(h["payloads"]):
+        rep.append(first.setdefault(canon(decode_payload(p)), i))
+    return rep
+
+
 def oracle(ctx: Ctx, h, res, origin: str):
     """Returns (list of (signature, step, what)), nontrivial?  Bookkeeping below is the *specification*:
     what was stored under which dataset by the operations that succeeded."""
     fails = []
+    rep = payload_rep(h)
     book = {"A": {}, "B": {}}     # repo -> k -> {"payload", "ident", "stored", "registered", "taint", "reingest_hit"}
     prev = None
     max_live = 0
@@ -293,9 +310,14 @@ def oracle(ctx: Ctx, h, res, origin: str):
                 if len(ks) > 1:
                     f = [_template_fields(h, book[R][k]["ident"]) for k in ks]
                     same_after_san = all({kk: _san(v) for kk, v in x.items()} == {kk: _san(v) for kk, v in f[0].items()} for x in f)
+                    order = ("datasetType", "instrument", "band", "physical_filter", "detector.full_name", "run")
+                    joined = {"_".join(_san(x[kk]) for kk in order if kk in x) for x in f}
+                    same_dirs = len({(x["run"].replace(" ", "_"), x["datasetType"], _dir_part(x)) for x in f}) == 1
+                    kind_of = "sanitise" if same_after_san else ("separator" if len(joined) == 1 and same_dirs else "other")
+                    rank = {None: 0, "sanitise": 1, "separator": 2, "other": 3}
                     for k in ks:
-                        if book[R][k]["taint"] != "separator":
-                            book[R][k]["taint"] = "sanitise" if same_after_san else "separator"
+                        if rank[kind_of] > rank[book[R][k]["taint"]]:
+                            book[R][k]["taint"] = kind_of
             max_live = max(max_live, sum(1 for e in book[R].values() if e["stored"]))
         # --- the statement, on every dataset that is still stored
         for R in ("A", "B"):
@@ -307,7 +329,7 @@ def oracle(ctx: Ctx, h, res, origin: str):
                 bad = []
                 if e["stored"]:
                     for how in ("get", "fresh"):
-                        if how in d and d[how][:2] != ["ok", e["payload"]]:
+                        if how in d and d[how][:2] != ["ok", rep[e["payload"]]]:
                             bad.append(("content", f"{how} returned {d[how]} instead of payload {e['payload']}"))
                 if e["registered"]:
                     want = {"type": e["ident"][0], "run": e["ident"][4]}
@@ -332,7 +354,7 @@ def oracle(ctx: Ctx, h, res, origin: str):
             for t in st[R]["tags"]:
                 if isinstance(t.get("found"), int) and t["found"] >= 0 and "get" in t:
                     e = book[R].get(t["found"])
-                    if e is not None and e["stored"] and t["get"][:2] != ["ok", e["payload"]]:
+                    if e is not None and e["stored"] and t["get"][:2] != ["ok", rep[e["payload"]]]:
                         sig = f"template-collision:{e['taint']}" if e["taint"] else ("refused-reingest-destroys-artifact" if e["hit"] else f"content-via-tag:{kind}")
                         fails.append((sig, n, f"step {n}: get through {t['tag']} returned {t['get']} for dataset k={t['found']}"))
         # --- a refused operation changes nothing
@@ -340,6 +362,10 @@ def oracle(ctx: Ctx, h, res, origin: str):
             for R in ("A", "B"):
                 before = {d["k"]: (d["get"][:2], d["uri"], d.get("reg")) for d in prev[R]["ds"]}
                 after = {d["k"]: (d["get"][:2], d["uri"], d.get("reg")) for d in st[R]["ds"] if d["k"] in before}
+                fresh_ks = [d["k"] for d in st[R]["ds"] if d["k"] not in before and (d.get("reg") is not None or d["get"][0] == "ok")]
+                if fresh_ks:
+                    fails.append((f"refused-op-left-dataset:{kind}:{st['out']}", n,
+                                  f"step {n}: {kind} was refused ({st['out']}) but repo {R} now holds/registers the dataset(s) k={fresh_ks} it was about"))
                 if before != after or prev[R]["files"] != st[R]["files"]:
                     tainted = any(e["taint"] for e in book[R].values())
                     if kind == "ingest" and op.get("reuse") is not None:
@@ -400,6 +426,7 @@ def c_robs(h, idents, ro, kind):
 
 
 def c_case(h, res):
+    rep = payload_rep(h)
     idents = {}
     for op in h["ops"]:
         if op["op"] in ("put", "ingest") and op.get("reuse") is None:
@@ -410,11 +437,11 @@ def c_case(h, res):
         side = "OnA" if op.get("repo") == "A" else "OnB"
         fmt = FMT_ID[(h["cfgA"] if op.get("repo") == "A" else h["cfgB"])["fmt"]]
         if k == "put":
-            w = f"{side} (cPut {cn(op['k'])} {c_ident(h, idents[op['k']])} {cn(op['payload'])})"
+            w = f"{side} (cPut {cn(op['k'])} {c_ident(h, idents[op['k']])} {cn(rep[op['payload']])})"
         elif k == "ingest":
             idn = idents[op["k"]]
             w = (f"{side} (cIngest {cbool(op['move'])} {cn(op['k'])} {c_ident(h, idn)} "
-                 f"({cn(fmt)}, {cn(op['payload'])}, {cz(st.get('src_size', -1))}))")
+                 f"({cn(fmt)}, {cn(rep[op['payload']])}, {cz(st.get('src_size', -1))}))")
         elif k == "xfer":
             w = f"{'XferBA' if op['to'] == 'A' else 'XferAB'} {cn(op['k'])}"
         elif k == "assoc":
@@ -428,7 +455,7 @@ def c_case(h, res):
     sizes = []
     for key, s in sorted(res["sizes"].items()):
         f, p = key.split(":")
-        sizes.append(f"({cn(FMT_ID[f])}, {cn(int(p))}, {cz(s)})")
+        sizes.append(f"({cn(FMT_ID[f])}, {cn(rep[int(p)])}, {cz(s)})")
     ca = f"(mkCfg {KIND[h['cfgA']['ds']]} {cn(FMT_ID[h['cfgA']['fmt']])})"
     cb = f"(mkCfg {KIND[h['cfgB']['ds']]} {cn(FMT_ID[h['cfgB']['fmt']])})"
     return f"(mkCase {ca} {cb} {clist(sizes)} {clist(steps)})"
@@ -673,6 +700,8 @@ def run(ctx: Ctx):
     # 3. generated histories
     r = ctx.rng
     n_hist = 150 if ctx.quick else 1500
+    import os
+    n_hist = int(os.environ.get("C01_NHIST", n_hist))      # development knob only; the registered command does not set it
     nops = (8, 16) if ctx.quick else (10, 28)
     hists = []
     for i in range(n_hist):
@@ -685,7 +714,7 @@ def run(ctx: Ctx):
 
     # 4. something no longer checks but the oracle held: search deeper on the implementation
     if ctx.broken and not ctx.oracle_failures:
-        extra = [gen_history(r, r.randint(12, 30), r.random() < 0.3, pick_cfgs(r)) for _ in range(300 if ctx.quick else 1200)]
+        extra = [gen_history(r, r.randint(12, 30), r.random() < 0.3, pick_cfgs(r)) for _ in range(int(os.environ.get("C01_NSEARCH", 300 if ctx.quick else 1200)))]
         more = run_batch(ctx, extra, "search")
         ctx.cov["search"] = (f"{len(more)} additional histories (12-30 operations, all configurations) were run on the implementation "
                              f"with the property oracle after the tie/obligation broke; failures found: {len(ctx.oracle_failures)}")
